@@ -124,17 +124,6 @@ theorem coverage_injective (tagLen : Nat) (raw1 raw2 a t : Bytes)
     (h1 : rtpCover tagLen raw1 = some (a, t)) (h2 : rtpCover tagLen raw2 = some (a, t)) : raw1 = raw2 := by
   rw [← coverage tagLen raw1 a t h1, ← coverage tagLen raw2 a t h2]
 
-/-- RTCP (HMAC profiles): authenticated part = everything before the tag (header, payload, `E‖index`) -/
-theorem coverage_rtcp (n : Nat) (pkt : Bytes) : pkt.take (pkt.length - n) ++ pkt.drop (pkt.length - n) = pkt :=
-  List.take_append_drop _ _
-
-/-- RTCP (AEAD): AAD = first 8 bytes ‖ trailing `E‖index` word; AEAD input = everything between. -/
-theorem coverage_rtcp_aead (pkt : Bytes) (h : 12 ≤ pkt.length) :
-    pkt.take 8 ++ (pkt.take (pkt.length - 4)).drop 8 ++ pkt.drop (pkt.length - 4) = pkt := by
-  have h1 : pkt.take 8 = (pkt.take (pkt.length - 4)).take 8 := by
-    rw [List.take_take]; congr 1; omega
-  rw [h1, List.take_append_drop, List.take_append_drop]
-
 /-! ### Forgery needs a primitive-level event -/
 
 /-- what the key holder authenticated for one genuine RTP packet -/
@@ -229,7 +218,7 @@ theorem forgery_needs_aead_forgery_rtcp (S : Suite) (c : Ctx) (pkt out : Bytes)
   intro nonce aad ct
   have hopen : (S.aeadOpen c.rtcp.ck nonce aad ct).isSome = true := unprotectRtcp_ok_open S c pkt out hg hacc
   by_cases hm : (nonce, aad, ct) ∈ Q
-  · left; exact ⟨_, hm, rfl, (coverage_rtcp_aead pkt hlen).symm⟩
+  · left; exact ⟨_, hm, rfl, (rtcp_aead_split pkt hlen).symm⟩
   · right; exact ⟨hm, hopen⟩
 
 /-! ### A rejection never disturbs the receiver -/
@@ -275,18 +264,16 @@ theorem reject_preserves_state_receive (S : Suite) (s : Sess) (now : Nat) (raw :
         rw [hr] at this; exact this
       | ok a => simp at he
 
-/-- **reject_preserves_state** (RTCP). The raw statement `reject ⇒ state' = state` is FALSE in exactly
-one field: under AEAD the SRTCP index of the addressed, already existing context may have been
-advanced before authentication. This theorem says precisely that and nothing more can differ;
-for the HMAC profiles the state is unchanged exactly. -/
+/-- **reject_preserves_state** (RTCP, raw form — holds exactly, every profile): if
+`SrtpSession::unprotect_rtcp` returns an error the session is unchanged. (Before the `fix:` commit
+"GCM unprotect_rtcp advances the SRTCP index only after authentication" this was false under AEAD:
+the index of the addressed context was advanced by a forged packet; round 1 had weakened this
+statement by a disjunct — the code was repaired instead.) -/
 theorem reject_preserves_state_rtcp (S : Suite) (s : Sess) (now : Nat) (pkt : Bytes) (e : Err)
-    (he : (s.unprotectRtcp S now pkt).1 = .error e) :
-    (s.unprotectRtcp S now pkt).2 = s ∨
-    ∃ c i, lookup s.rx (ssrcOfRtcp pkt) = some c ∧ c.profile = .gcm ∧ c.rtcpIndex < i ∧
-      (s.unprotectRtcp S now pkt).2 = { s with rx := replace s.rx (c.setIdx i) } := by
+    (he : (s.unprotectRtcp S now pkt).1 = .error e) : (s.unprotectRtcp S now pkt).2 = s := by
   unfold Sess.unprotectRtcp at he ⊢
   split
-  · left; rfl
+  · rfl
   · rename_i hlen
     rw [if_neg hlen] at he
     cases hl : lookup s.rx (ssrcOfRtcp pkt) with
@@ -295,25 +282,8 @@ theorem reject_preserves_state_rtcp (S : Suite) (s : Sess) (now : Nat) (pkt : By
       | ok a => rw [withRx_some_ok S s now _ _ hl hr] at he; simp at he
       | error e' =>
         rw [withRx_some_err S s now _ _ hl hr]
-        obtain ⟨hf, hk⟩ := unprotectRtcp_err_state S c pkt e' hr
-        by_cases hg : c.profile = .gcm
-        · have hc := eq_setIdx_of_forget _ _ hf
-          by_cases hi : (c.unprotectRtcp S pkt).2.rtcpIndex = c.rtcpIndex
-          · left
-            have : (c.unprotectRtcp S pkt).2 = c := by
-              have h2 := hc
-              rw [hi] at h2
-              rw [h2, setIdx_self]
-            simp only [this, replace_lookup_self s.rx _ c hl]
-          · right
-            refine ⟨c, (c.unprotectRtcp S pkt).2.rtcpIndex, rfl, hg, ?_, by rw [← hc]⟩
-            -- the index only ever grows
-            have hmono := unprotectRtcp_index_mono S c pkt
-            omega
-        · left
-          simp only [hk hg, replace_lookup_self s.rx _ c hl]
+        simp only [unprotectRtcp_err_keeps S c pkt e' hr, replace_lookup_self s.rx _ c hl]
     | none =>
-      left
       cases hn : Ctx.new S (ssrcOfRtcp pkt) s.profile s.rxMk s.rxMs now with
       | error e' => rw [withRx_none_newerr S s now _ _ hl hn]
       | ok c =>
@@ -321,52 +291,44 @@ theorem reject_preserves_state_rtcp (S : Suite) (s : Sess) (now : Nat) (pkt : By
         | error e' => rw [withRx_none_err S s now _ _ hl hn hr]
         | ok a => rw [withRx_none_ok S s now _ _ hl hn hr] at he; simp at he
 
+/-- the same at the `SrtpContext` API (which is public too): a failed `unprotect` / `unprotect_rtcp`
+leaves the context exactly as it was -/
+theorem reject_preserves_context (S : Suite) (c : Ctx) :
+    (∀ h p body e, (c.unprotectRtp S h p body).1 = .error e → (c.unprotectRtp S h p body).2 = c) ∧
+    (∀ pkt e, (c.unprotectRtcp S pkt).1 = .error e → (c.unprotectRtcp S pkt).2 = c) :=
+  ⟨fun h p body e he => unprotectRtp_err_keeps S c h p body e he,
+   fun pkt e he => unprotectRtcp_err_keeps S c pkt e he⟩
+
 /-! ### …for every later history -/
 
-/-- sessions that differ only in SRTCP indices of receive contexts are indistinguishable, forever -/
-theorem obs_bisim (S : Suite) (ops : List Op) {s1 s2 : Sess} (h : Sess.obsEq s1 s2) :
-    run S s1 ops = run S s2 ops := by
-  induction ops generalizing s1 s2 with
-  | nil => rfl
-  | cons o os ih =>
-    obtain ⟨h1, h2⟩ := step_obsEq S h o
-    simp only [run, h1, ih h2]
-
-/-- a rejected packet leaves the session observationally where it was -/
-theorem reject_obsEq (S : Suite) (s : Sess) (o : Op) (hrej : (step S s o).1.isReject = true) :
-    Sess.obsEq (step S s o).2 s := by
+/-- one rejected operation (RTP or RTCP, parse error or authentication failure, known or unknown
+SSRC, any time) leaves the whole session — both tables, every rollover counter, highest sequence
+number, SRTCP index and last-use time — exactly as it was -/
+theorem reject_preserves_state_step (S : Suite) (s : Sess) (o : Op) (hrej : (step S s o).1.isReject = true) :
+    (step S s o).2 = s := by
   cases o with
   | rtpIn now raw =>
     simp only [step] at hrej ⊢
     cases hr : (s.receiveRtp S now raw).1 with
     | ok a => rw [hr] at hrej; simp [Out.isReject] at hrej
-    | error e => rw [reject_preserves_state_receive S s now raw e hr]; exact Sess.obsEq.refl s
+    | error e => exact reject_preserves_state_receive S s now raw e hr
   | rtcpIn now pkt =>
     simp only [step] at hrej ⊢
     cases hr : (s.unprotectRtcp S now pkt).1 with
     | ok a => rw [hr] at hrej; simp [Out.isReject] at hrej
-    | error e =>
-      rcases reject_preserves_state_rtcp S s now pkt e hr with h | ⟨c, i, hl, _, _, h⟩
-      · rw [h]; exact Sess.obsEq.refl s
-      · rw [h]
-        refine ⟨rfl, rfl, rfl, rfl, rfl, rfl, ?_⟩
-        have := replace_tblEq (tblEq_refl s.rx) (c := c.setIdx i) (d := c) rfl
-        rw [replace_lookup_self s.rx _ c hl] at this
-        exact this
+    | error e => exact reject_preserves_state_rtcp S s now pkt e hr
   | rtpOut now p => simp [step, Out.isReject] at hrej
   | rtcpOut now pkt => simp [step, Out.isReject] at hrej
 
-/-- **reject_preserves_behaviour**: if the session rejects a packet (RTP or RTCP, any profile, known
-or unknown SSRC, at any time), then for EVERY later history — any interleaving of genuine and forged
-RTP/RTCP on any SSRCs, protect calls, any passage of time — every result is exactly what it would
-have been had the rejected packet never arrived. No `NoEvictionTriggered` hypothesis is needed any
-more: since the `fix:` commit a rejected packet neither inserts a context nor refreshes or evicts
-one (before it, forged SSRCs could push the table over the high-water mark and evict an idle
-genuine context together with its rollover counter). -/
+/-- **reject_preserves_behaviour**: after a rejected packet, EVERY later history — any interleaving of
+genuine and forged RTP/RTCP on any SSRCs, protect calls, any passage of time — gives exactly the
+results it would have given had the packet never arrived (in particular every genuine packet that
+would have been accepted still is). No `NoEvictionTriggered` hypothesis: since the first `fix:`
+commit of C05 a rejected packet neither inserts, refreshes nor evicts a context. -/
 theorem reject_preserves_behaviour (S : Suite) (s : Sess) (o : Op) (later : List Op)
     (hrej : (step S s o).1.isReject = true) :
-    run S (step S s o).2 later = run S s later :=
-  obs_bisim S later (reject_obsEq S s o hrej)
+    run S (step S s o).2 later = run S s later := by
+  rw [reject_preserves_state_step S s o hrej]
 
 /-- the operations of a history that were not rejected -/
 def survivors (S : Suite) (s : Sess) (ops : List Op) : List Op :=
@@ -390,23 +352,33 @@ theorem rejected_packets_are_invisible (S : Suite) (ops : List Op) (s : Sess) :
       simp only [Bool.false_eq_true, if_false, Bool.not_false, if_true, run]
       rw [← ih (step S s o).2]; rfl
 
-/-- the table cannot be grown, refreshed or aged by rejected traffic: same contexts, same last-use
-times, same size — so forged packets can never contribute to an eviction. -/
-theorem reject_keeps_table_shape (S : Suite) (s : Sess) (o : Op) (hrej : (step S s o).1.isReject = true) :
-    (step S s o).2.rx.map (fun c => (c.ssrc, c.roc, c.last, c.lastUsed)) =
-      s.rx.map (fun c => (c.ssrc, c.roc, c.last, c.lastUsed)) ∧ (step S s o).2.tx = s.tx := by
-  have h := reject_obsEq S s o hrej
-  refine ⟨?_, h.tx⟩
-  have := congrArg (List.map (fun c : Ctx => (c.ssrc, c.roc, c.last, c.lastUsed))) h.rx
-  simpa [List.map_map, Function.comp_def, Ctx.forget] using this
+/-! ### non-vacuity: an authentication failure on an existing context at ROC 1 -/
 
-/-! ### non-vacuity -/
+/-- a toy suite whose "MAC" is the last 20 bytes of the message (so it depends on the ROC) -/
+def toySuite : Suite where
+  ks := fun _ _ n => List.replicate n 0
+  ks_len := by intro _ _ n; simp
+  mac := fun _ d => (d.reverse ++ List.replicate 20 0).take 20
+  mac_len := by intro _ d; simp [List.length_take]
+  aeadSeal := fun _ _ _ p => p ++ List.replicate 16 0
+  aeadOpen := fun _ _ _ c => if c.length < 16 then none else some (c.take (c.length - 16))
+  seal_len := by intro _ _ _ p; simp
+  open_seal := by intro _ _ _ p; simp
+  open_len := by
+    intro _ _ _ c p h
+    split at h
+    · simp at h
+    · simp only [Option.some.injEq] at h; subst h; simp [List.length_take]; omega
 
-/-- a forged packet for an unknown SSRC is rejected (authentication fails for a suite whose MAC
-never outputs the attacker's tag) and then a history continues — hypotheses are satisfiable -/
-example : Sess.obsEq (Sess.new .cm80 [] [] [] []) (Sess.new .cm80 [] [] [] []) := Sess.obsEq.refl _
+/-- a receive context at ROC 1 (highest sequence number 200) -/
+def ctxRoc1 : Ctx := ⟨7, .cm80, ⟨[], [], []⟩, ⟨[], [], []⟩, 1, some 200, 5, 0⟩
+def sessRoc1 : Sess := { Sess.new .cm80 [] [] [] [] with rx := [ctxRoc1] }
+/-- a 12-byte header (SSRC 7, sequence 201) followed by ten zero bytes as "tag" -/
+def forgedPkt : Bytes := [0x80, 96, 0, 201, 0, 0, 0, 0, 0, 0, 0, 7] ++ List.replicate 10 0
 
-example (S : Suite) (s : Sess) : (step S s (.rtpIn 0 [])).1.isReject = true := by
-  simp [step, Sess.receiveRtp, parseHdr, Out.isReject]
+example : (step toySuite sessRoc1 (.rtpIn 99 forgedPkt)).1.isReject = true ∧
+    (step toySuite sessRoc1 (.rtpIn 99 forgedPkt)).2 = sessRoc1 := by
+  have h : (step toySuite sessRoc1 (.rtpIn 99 forgedPkt)).1.isReject = true := by decide
+  exact ⟨h, reject_preserves_state_step toySuite sessRoc1 _ h⟩
 
 end RtcModel.Theorems.C05
